@@ -61,6 +61,7 @@ class Ctx:
         self.undecided_clauses = []
         self.assumptions = []
         self.floor_errors = []
+        self.floors = {}
         self._shared = {}
 
     # -- recording ------------------------------------------------------
@@ -87,9 +88,13 @@ class Ctx:
     def floor(self, rule, n, what=""):
         """Fail closed when a rule saw fewer instances than confirmed by hand."""
         have = self.rule_instances.get(rule, 0)
-        if have < n:
-            self.floor_errors.append("rule %s matched %d instance(s), fewer than the %d confirmed by hand%s"
-                                     % (rule, have, n, (" (" + what + ")") if what else ""))
+        # n instances were confirmed by reading the pinned tree.  A behaviour-preserving refactoring may merge a few sites, a rule
+        # that lost its anchor matches none or almost none: the check fails closed below half of the confirmed count.
+        need = max(1, (n + 1) // 2)
+        self.floors[rule] = {"confirmed": n, "required": need, "matched": have}
+        if have < need:
+            self.floor_errors.append("rule %s matched %d instance(s), fewer than %d (half of the %d confirmed by hand)%s"
+                                     % (rule, have, need, n, (" (" + what + ")") if what else ""))
 
     def note(self, s):
         self.notes.append(s)
@@ -184,6 +189,7 @@ def finish(ctx, level, explanation, t0, trusted_base=(), extra=None, selftest=No
         "trusted_base": list(trusted_base),
         "functions_analysed": sorted(ctx.analysed_funcs),
         "rules": per_rule,
+        "instance_floors": ctx.floors,
         "source_digest": ctx.model.digest(ctx.model.modules.keys()),
         "not_decided": ctx.undecided_clauses,
         "notes": ctx.notes,
